@@ -11,14 +11,16 @@ NOTE = ("Trusted: Lean 4.33 kernel (axioms propext, Classical.choice, Quot.sound
 
 CLAIMS = {
     "C01": dict(
-        technique="Lean 4 theorem by simulation (graft lemma over SMILES token semantics, unbounded) + a proved-sound decidable certificate evaluated on every real merge + RDKit molzip Spec judging",
-        text="Gly.Smi.graft / C01_graft: replacing a leaf marker atom of any SMILES by any closed block whose ring labels are not open there yields the "
-             "graft - atoms and ordered bond events of both parts carried over as written, one new bond (frame lemma run_embed + renaming simulation run_sim + "
-             "well-formedness invariant). C01_certified_splice proves the decidable certificate sound; the compiled Model re-plays every real merge_int "
-             "(boundary strings captured from RDKit inside merge_int), reproduces its output text-identically and certifies each splice and each sanitize step. "
-             "Independently every sampled well-formed glycan is compared as a stereo molecule with an RDKit molzip join of the residues converted alone.",
-        note="partial: RDKit's writing of the marked residue is a boundary input (its meaning is assumed to be the token semantics Smi.sem); the N-link block "
-             "'N(' child[1:] ')' is certified per instance; carbon numbering of modified residues is compared with a chemistry-level rule per residue, not proved; "
+        technique="Lean 4 theorem by mutual structural induction over the residue tree (token-level merge_int refines the graft Spec for every tree of any depth/width: C01_tree_refines_spec, built on the graft lemma by simulation) + proved-sound decidable certificates evaluated on every real merge, on the Model's and on the code's own intermediate strings + RDKit molzip Spec judging",
+        text="C01_tree_refines_spec: for every tree of residue strings passing the decidable check wfTree (closed strings, pairwise different markers each once on a leaf atom, "
+             "no child ring label open at its marker) the token-level Model of merge_int (mergeTok, O- and N-linkages) yields a SMILES denoting exactly specTree - every residue's "
+             "atoms, ordered bond events and stereo marks carried over, one glycosidic bond per linkage - and never 'no molecule'. Built on Gly.Smi.graft (C01_graft: frame lemma, "
+             "renaming simulation), splice_one, nblock (N-link block), slot_preserved, loop. C01_certified_splice / C01_certified_tree / certifyObserved_sound prove the certificates sound; "
+             "the driver re-plays every real merge_int (boundary strings captured from RDKit), reproduces its output text-identically and certifies the whole tree both on the Model's strings "
+             "and on the strings Monomer.to_smiles really returned together with the code's own result. Independently every sampled well-formed glycan (random trees + fixed bicyclic / 4-way / N-link cases) "
+             "is compared as a stereo molecule with an RDKit molzip join of the residues converted alone.",
+        note="partial: RDKit's writing of the marked residue is a boundary input (its meaning is assumed to be the token semantics Smi.sem); sanitize_smiles is validated per instance "
+             "(same sem), not proved; carbon numbering of modified residues is compared with a chemistry-level rule per residue, not proved; "
              "two open known findings (numbering of 1-amino-ketoses and 2,6-anhydro sugars). " + NOTE, ref="6 C01, 14"),
     "C03": dict(
         technique="Lean 4 theorem by induction over the syntax tree (walker = pre-order numbering of the compositional reading) + correspondence",
@@ -28,27 +30,29 @@ CLAIMS = {
              "the real code is also judged directly against the written tree (unordered) and must reject foreign text.",
         note="The ANTLR runtime and generated parser bodies are tied by correspondence only. " + NOTE, ref="6 C03"),
     "C15": dict(
-        technique="Lean 4 theorems (longest-match lexer spec, parser soundness w.r.t. the regenerated grammar) + bounded-exhaustive correspondence",
-        text="C15_lex_longest_match, C15_parse_sound and C15_accept_sound are proved for all inputs against the grammar regenerated from Glycan.g4 on "
+        technique="Lean 4 theorems (longest-match lexer spec; generic priority parser sound and complete w.r.t. the grammar regenerated from Glycan.g4: C15_accept_iff) + bounded-exhaustive correspondence",
+        text="C15_lex_longest_match, C15_parse_sound, C15_parse_complete, C15_accept_sound and C15_accept_iff (Model accepts s iff #s# tokenises by longest match and its whole token stream is a sentence of the start rule) are proved for all inputs against the grammar regenerated from Glycan.g4 on "
              "every run; acceptance of the real code is compared with the Model's recogniser on all strings of <=4 (quick) / <=5 (thorough) symbols of a "
              "16-symbol alphabet, every token literal in 9 contexts, corpus names and single-edit mutants.",
-        note="partial: the completeness direction (derivable => accepted) is carried by correspondence, and so is the adequacy of the concrete fuel bound; "
+        note="partial: the adequacy of the concrete fuel bound is a side condition of C15_accept_iff evaluated by the driver per input (doubling the fuel changes nothing); "
              "the ANTLR ALL(*) interpreter is not modelled. " + NOTE, ref="6 C15"),
 }
 
 CLAIMS.update({
     "C02": dict(
-        technique="Lean 4 theorems (release gate decision logic, marker tables disjoint by kernel evaluation) + Spec judging of every result with RDKit",
-        text="C02_gate / C02_gate_transparent state the validation gate outright; C02_marker_tables_disjoint is decided by the kernel over the regenerated "
+        technique="Lean 4 theorems (no marker atom and nothing open survives the assembly of any well-formed tree: C02_no_marker_survives; label renaming invisible iff < 100; release gate decision logic; marker tables disjoint by kernel evaluation) + Spec judging of every result with RDKit",
+        text="C02_no_marker_survives: for every tree passing wfTree the assembled string is a closed SMILES (every branch closed, every ring label paired, no dangling bond) without marker atoms. "
+             "C02_shift_preserves_molecule / C02_labels_valid_below_100 / C02_label_100_counterexample: the per-level label renaming is invisible to the semantics exactly while labels stay below 100. "
+             "C02_gate / C02_gate_transparent state the validation gate outright; C02_marker_tables_disjoint is decided by the kernel over the regenerated "
              "marker tables. Every non-empty result of well-formed, meaningless and ungrammatical inputs under random option combinations is judged by "
              "the executable Spec (parses, sanitises, one fragment, glycan elements only, no marker atom, no empty branch), also through convert.",
-        note="partial: the string-level lemmas (balanced parentheses, no marker survives the splice, label validity) are not yet proved; RDKit's "
-             "sanitisation is the validity oracle. " + NOTE, ref="6 C02"),
+        note="partial: valence / chemical sanity is RDKit's verdict (the gate's oracle), not a Lean predicate; the reactor's placeholder substitution (assemble_chains) is covered by the table theorem and by correspondence. " + NOTE, ref="6 C02"),
     "C05": dict(
-        technique="Lean 4 corollaries of the graft lemma (atom, bond and ring-closure balance of every splice, any counting predicate) + RDKit balance over the complete residue vocabulary",
-        text="Every sampled glycan's element counts (incl. H) and cyclomatic ring count are compared with the sum over its residues converted alone minus "
+        technique="Lean 4 theorems over the whole residue tree (atom balance for every counting predicate: C05_tree_atoms; ring-closure and bond balance of the Spec molecule: C05_tree_rings; per-splice corollaries of the graft lemma) + RDKit balance over the complete residue vocabulary",
+        text="C05_tree_atoms: for every well-formed tree and every predicate on atom texts, atoms(result) + lost = gained, where lost = one marker per linkage (the parent's linking O/N) plus the anomeric O of N-linked children and gained = all residue atoms plus one N per N-linkage. "
+             "C05_tree_rings: ring closures and bond events of the denoted molecule are the sums over the residues. Every sampled glycan's element counts (incl. H) and cyclomatic ring count are compared with the sum over its residues converted alone minus "
              "(n-1) H2O; every vocabulary residue appears as child and as parent, every alditol as reducing end.",
-        note="partial: the theorems count atom tokens, bond events and ring closures of the token semantics (C05_atoms, C05_bonds_and_rings, C05_graft_balance); implicit "
+        note="partial: the theorems count atom tokens, bond events and ring closures of the token semantics; implicit "
              "hydrogens are computed by RDKit in the sweep, not in Lean. " + NOTE, ref="6 C05"),
     "C06": dict(
         technique="Lean 4 theorems (edge normal form for all anomer/position texts, create resolution) + exhaustive connection forms + notation variants as molecules",
@@ -58,10 +62,10 @@ CLAIMS.update({
              "regenerated tables. All connection forms x anomer x positions are run exhaustively; random trees are rendered five ways and compared as molecules.",
         note="One open known finding (short-form linkage with a 2-ketose child). to_enantiomer as identity for the own series is checked as molecules only. " + NOTE, ref="6 C06"),
     "C07": dict(
-        technique="Lean 4 theorem (splices at distinct markers commute) + all permutations at all branching nodes give one canonical molecule (RDKit)",
-        text="For tree shapes up to 5/6 residues every permutation at every branching node (incl. the choice of the unbracketed main chain) and random "
+        technique="Lean 4 theorem over List.Perm (permuting the children of a well-formed residue leaves the assembled token string unchanged: C07_children_order_immaterial; splices at distinct markers commute) + all permutations at all branching nodes give one canonical molecule (RDKit)",
+        text="C07_children_order_immaterial: for any well-formed residue with any number of children and any subtrees below them, every permutation of the child list gives the same assembled string, token for token (C07_splices_commute, substAll_perm); C07_walk_children_order: the walker hangs bracketed branches and the main chain on the same parent in written order. For tree shapes up to 5/6 residues every permutation at every branching node (incl. the choice of the unbracketed main chain) and random "
              "permutations of larger random trees must give the same RDKit canonical SMILES.",
-        note="partial: C07_splices_commute is token-level; that RDKit's boundary strings for two written orders denote the same marked molecule is checked as molecules, not proved. " + NOTE, ref="6 C07"),
+        note="partial: the theorems are token-level with each child keeping its marker; that RDKit's boundary strings for two written orders denote the same marked molecule is checked as molecules, not proved. " + NOTE, ref="6 C07"),
     "C09": dict(
         technique="Lean 4 theorems by list induction over a model of converter.py (any conv, any argument mix) + differential runs of convert/convert_generator",
         text="C09_pairs, C09_aligned, C09_isolated, C09_failing_input_empty, C09_generator_same are proved for every per-glycan behaviour and every "
